@@ -19,6 +19,7 @@ func init() {
 	register(&Scenario{Prop: "C05", Name: "registry-wellformed", Run: func(rc *RunCtx) { runRegistrySeq(rc, "C05") }})
 	register(&Scenario{Prop: "C06", Name: "registry-inuse", Run: func(rc *RunCtx) { runRegistrySeq(rc, "C06") }})
 	register(&Scenario{Prop: "C06", Name: "registry-enum", Run: runRegistryEnum})
+	register(&Scenario{Prop: "C06", Name: "inuse-conc", Run: runInUseConc})
 	register(&Scenario{Prop: "C07", Name: "registry-policy", Run: func(rc *RunCtx) { runRegistrySeq(rc, "C07") }})
 	register(&Scenario{Prop: "C20", Name: "registry-reopen", Run: func(rc *RunCtx) { runRegistrySeq(rc, "C20") }})
 	register(&Scenario{Prop: "C20", Name: "reopen-conc", Run: runReopenConc})
@@ -913,6 +914,185 @@ func runReopenConc(rc *RunCtx) {
 			return
 		} else if !errors.Is(c.err, failing.fail) && !strings.Contains(c.err.Error(), failing.fail.Error()) {
 			rc.Failf("C20.reopen-error", "not-carried-conc", "Reopen call %d returned %q which does not carry %q", i, c.err, failing.fail)
+		}
+	}
+}
+
+// ---- C06: in-use accounting after CONCURRENT removals / overwrites -------------------------
+//
+// Several tasks remove and overwrite pipelines that share nodes (and try to remove
+// nodes) at the same time. Whatever order the calls took effect in, once they have all
+// returned the accounting must match the registered pipelines: a probe Send shows
+// which node objects registered pipelines still list; exactly those ids must be
+// refused by RemoveNode, every other id must be removable (closed exactly once) or
+// already removed (closed exactly once), and nothing is ever closed twice.
+
+type acctNode struct {
+	label  string
+	kind   el.NodeType
+	calls  int
+	closes int
+}
+
+func (n *acctNode) Type() el.NodeType { return n.kind }
+func (n *acctNode) Reopen() error     { return nil }
+func (n *acctNode) Process(ctx context.Context, e *el.Event) (*el.Event, error) {
+	n.calls++
+	if n.kind == el.NodeTypeSink {
+		return nil, nil
+	}
+	return e, nil
+}
+func (n *acctNode) Close(ctx context.Context) error {
+	simrt.Yield("node:close")
+	n.closes++
+	return nil
+}
+
+func runInUseConc(rc *RunCtx) {
+	tp := rc.Tape
+	sim := rc.Sim
+	b, _ := el.NewBroker()
+	objs := map[string]*acctNode{}
+	var ids []string
+	for _, id := range []string{"f1", "f2", "s1", "s2"} {
+		k := el.NodeTypeFormatter
+		if id[0] == 's' {
+			k = el.NodeTypeSink
+		}
+		objs[id] = &acctNode{label: id, kind: k}
+		ids = append(ids, id)
+		if err := b.RegisterNode(el.NodeID(id), objs[id]); err != nil {
+			rc.Failf("C06.setup", "", "%v", err)
+			return
+		}
+	}
+	types := []string{"ta", "tb"}
+	pickNodes := func() []el.NodeID {
+		return []el.NodeID{el.NodeID([]string{"f1", "f1", "f2"}[tp.Choose(3, "fmt")]), el.NodeID([]string{"s1", "s1", "s2"}[tp.Choose(3, "sink")])}
+	}
+	var desc []string
+	nP := 2 + tp.Choose(3, "npipes")
+	type pk struct{ typ, pid string }
+	var pks []pk
+	for p := 0; p < nP; p++ {
+		k := pk{types[tp.Choose(4, "type")/3], fmt.Sprintf("p%d", p)}
+		nids := pickNodes()
+		if err := b.RegisterPipeline(el.Pipeline{PipelineID: el.PipelineID(k.pid), EventType: el.EventType(k.typ), NodeIDs: nids}); err != nil {
+			rc.Failf("C06.setup", "", "%v", err)
+			return
+		}
+		pks = append(pks, k)
+		desc = append(desc, fmt.Sprintf("%s/%s%v", k.typ, k.pid, nids))
+	}
+	type aop struct {
+		kind string
+		k    pk
+		id   string
+		nids []el.NodeID
+	}
+	nT := 2 + tp.Choose(3, "ntasks")
+	var tdesc [][]string
+	for t := 0; t < nT; t++ {
+		n := 1 + tp.Choose(3, "nops")
+		var ops []aop
+		var d []string
+		for i := 0; i < n; i++ {
+			tp.Mark()
+			k := pks[tp.Choose(len(pks), "pipeline")]
+			if tp.Choose(2, "first") == 0 {
+				k = pks[0] // collisions on one pipeline are the interesting case
+			}
+			var o aop
+			switch tp.Choose(6, "op") {
+			case 0, 1:
+				o = aop{kind: "RemovePipeline", k: k}
+			case 2:
+				o = aop{kind: "RemovePipelineAndNodes", k: k}
+			case 3:
+				o = aop{kind: "RemoveNode", id: ids[tp.Choose(len(ids), "id")]}
+			case 4:
+				o = aop{kind: "RegisterPipeline", k: k, nids: pickNodes()}
+			default:
+				o = aop{kind: "RegisterPipeline", k: pk{k.typ, "q" + k.pid}, nids: pickNodes()}
+			}
+			ops = append(ops, o)
+			d = append(d, fmt.Sprintf("%s %s/%s %s %v", o.kind, o.k.typ, o.k.pid, o.id, o.nids))
+		}
+		tdesc = append(tdesc, d)
+		sim.Spawn(fmt.Sprintf("acct%d", t), func() {
+			ctx := context.Background()
+			simrt.Yield("acct:start")
+			for _, o := range ops {
+				switch o.kind {
+				case "RemovePipeline":
+					b.RemovePipeline(el.EventType(o.k.typ), el.PipelineID(o.k.pid))
+				case "RemovePipelineAndNodes":
+					b.RemovePipelineAndNodes(ctx, el.EventType(o.k.typ), el.PipelineID(o.k.pid))
+				case "RemoveNode":
+					b.RemoveNode(ctx, el.NodeID(o.id))
+				case "RegisterPipeline":
+					b.RegisterPipeline(el.Pipeline{PipelineID: el.PipelineID(o.k.pid), EventType: el.EventType(o.k.typ), NodeIDs: o.nids})
+				}
+				simrt.Yield("acct:between")
+			}
+		})
+	}
+	rc.Desc = map[string]interface{}{"pipelines": desc, "tasks": tdesc}
+	rc.NonTrivial = true
+	sim.Run(nil)
+	if sim.Stuck {
+		rc.Failf("C06.stuck", stuckClass(sim), "concurrent removals did not finish: %s", strings.Join(sim.StuckInfo, "; "))
+		return
+	}
+	type verdict struct {
+		listed   bool
+		err      error
+		dcloses  int
+		closes   int
+		finished bool
+	}
+	res := map[string]*verdict{}
+	sim.Spawn("acct-probe", func() {
+		ctx := context.Background()
+		for _, o := range objs {
+			o.calls = 0
+		}
+		for _, t := range types {
+			b.Send(ctx, el.EventType(t), "probe")
+		}
+		for _, id := range ids {
+			o := objs[id]
+			v := &verdict{listed: o.calls > 0}
+			before := o.closes
+			v.err = b.RemoveNode(ctx, el.NodeID(id))
+			v.dcloses = o.closes - before
+			v.closes = o.closes
+			v.finished = true
+			res[id] = v
+		}
+	})
+	sim.Run(nil)
+	for _, id := range ids {
+		v := res[id]
+		if v == nil || !v.finished {
+			rc.Failf("C06.stuck", "probe", "the quiescent probe did not finish: %s", strings.Join(sim.StuckInfo, "; "))
+			return
+		}
+		notFound := v.err != nil && errors.Is(v.err, el.ErrNodeNotFound)
+		switch {
+		case v.closes > 1:
+			rc.Failf("C06.double-close", "concurrent", "node %s was closed %d times", id, v.closes)
+		case v.listed && (v.err == nil || notFound):
+			rc.Failf("C06.remove-node", "removed-in-use-concurrent", "after concurrent removals node %s is still listed by a registered pipeline (the probe Send reached it) but RemoveNode did not refuse it (%v)", id, v.err)
+		case v.listed && v.closes > 0:
+			rc.Failf("C06.remove-node", "removed-in-use-concurrent", "after concurrent removals node %s is still listed by a registered pipeline (the probe Send reached it) but it has been closed (RemoveNode now: %v)", id, v.err)
+		case !v.listed && v.err == nil && v.closes != 1:
+			rc.Failf("C06.remove-node-close", fmt.Sprintf("closes=%d", v.closes), "RemoveNode(%s) succeeded but the node was closed %d times in total", id, v.closes)
+		case !v.listed && notFound && v.closes != 1:
+			rc.Failf("C06.remove-node-close", fmt.Sprintf("gone,closes=%d", v.closes), "node %s was unregistered during the concurrent phase but closed %d times", id, v.closes)
+		case !v.listed && v.err != nil && !notFound:
+			rc.Failf("C06.pinned", "concurrent", "after concurrent removals no registered pipeline lists node %s (the probe Send did not reach it), yet RemoveNode refuses it: %v", id, v.err)
 		}
 	}
 }
